@@ -152,6 +152,12 @@ func (c *serverConn) connect(header *parser.PacketHeader, decode parser.Decode) 
 	}
 
 	socket, err := nsp.add(c, auth)
+	if errors.Is(err, errAlreadyConnectedToNamespace) {
+		// Same as a CONNECT packet for a namespace that is already connected (see `onParserFinish`).
+		c.debug.Log("Invalid state", "second CONNECT packet for namespace", nsp.name)
+		c.close()
+		return
+	}
 	if err != nil {
 		c.debug.Log("Connection to namespace", nsp.name, "was denied")
 		mErr := &middlewareError{}
